@@ -81,6 +81,27 @@ CHECKS = {
    technique="explicit-state (BFS) exploration of operation histories of the real binary with file-system snapshot invariants and a fresh-run differential oracle"),
 }
 ALL = ["C%02d" % i for i in range(1, 20)]
+# additions of seeding round 4, appended to the coverage statements above
+R4 = {
+ "C02": "Multi-part string literals (two and three adjacent parts) are atoms of Σ; the directory-level pass continues through the three report generators and reads the entries back.",
+ "C03": "Plus a family of name relations: names that differ only in letter case (files and directories), byte-identical copies and same-named files with equal line sets in different directories, prefix names, directories named like source files, one name in two Unicode normal forms, several empty files.",
+ "C04": "Plus all ordered pairs of 20 literals (zeros in every spelling, exact / inexact quotients, 2^128, 2^256) under 12 operator templates, and a cyclic-structure family (self / mutual recursion of internal, private, free and public functions, recursion through this / modifiers / overloads, inheritance cycles, self-containing structs, mutually defined constants) under three pragma settings. A suspected hang is confirmed alone in a fresh process (60 s) before it is reported.",
+ "C08": "memory_to_calldata additionally over function names {f, own contract, another contract-like definition} x 6 pragma spellings x 4 kinds of the other definition x 3 holder kinds.",
+ "C09": "Call sites and require strings also as statements in every statement hole of every statement alternative (blocks, unchecked blocks, loop bodies, branches, try success blocks with and without returns, catch clauses; depth 1 quick / 2 thorough) on either side of both thresholds.",
+ "C10": "Contract headers rotate through plain / abstract / one base / base with arguments and a second base.",
+ "C11": "Plus maps in which one (file, line) is a finding of several patterns: every ordered pair of patterns of a category with identical / overlapping / nested findings, all patterns of a category and all three categories with the same findings.",
+ "C12": "Plus maps in which one (file, line) is a finding of several patterns (every ordered pair of patterns of a category, whole categories, all categories).",
+ "C13": "Pattern-order exploration over all 30 patterns on files in which every pattern fires: every pair in both orders, the documented order against its reverse, every rotation and every transposition, each rendering on a fresh thread.",
+ "C14": "Directory resolution additionally x configuration file in the working directory / in a sub-directory named relatively / absolutely (the sub-directory holds same-named directories with other contracts).",
+ "C15": "Directory contexts include neighbours related to the observed file (byte-identical copies under other names, nested, three of them) and degenerate neighbours (empty, blank, comment-only, pragma-only source files) at every listing position.",
+ "C16": "Plus trees in which several eligible files share a name and / or their content across directories and depths, mixed with ineligible files.",
+ "C17": "The directory-level pass continues through the three report generators: per pattern, the entries read back are the lines of the flagged tokens in every layout (constructs sharing a line are all still listed).",
+ "C18": "Every history is run from two initial trees: directories that hold contracts only, and contracts next to other files.",
+ "C19": "The pool has 31 templates, seven of which refer by name to an enum, a user-defined value type or a struct declared in another item.",
+}
+for _k, _v in R4.items():
+    CHECKS[_k]["text"] += " " + _v
+
 NOT_YET = "check not built yet in this revision of /verif (see DESIGN.md section 7 for the planned decision procedure)"
 
 def main():
